@@ -179,7 +179,8 @@ Op gen_init(Rng& r, const WorldSpec& w, bool allow_zero)
     else
     {
         o.kind = OP_INITV;
-        o.vclass = weighted(r, {{V_GENERIC, 5}, {V_INVARIANT, w.mclass == M_BLOCKDIAG ? 4.0 : 1.0}, {V_TINY, 0.7}, {V_HUGE, 0.7}, {V_COORD, 1}});
+        o.vclass = weighted(r, {{V_GENERIC, 5}, {V_INVARIANT, w.mclass == M_BLOCKDIAG ? 4.0 : 1.0}, {V_TINY, 0.7}, {V_HUGE, 0.7}, {V_COORD, 1},
+                                {V_WARM, 0.0}});  // warm starts hit KF-near-invariant-start on the pinned tree even for nev == 1: not generated
         o.vseed = r.next();
     }
     return o;
